@@ -329,7 +329,20 @@ class SymDict:
             return False
         p = z3.Bool(fresh_name(f"{self.name}.has.{key}"))
         self.entries[key] = [p, UNSET]
+        # snapshots (old-state clones) taken before this key was first looked at had the same, still unknown, entry
+        for t in self.ghost.get("_twins", ()):
+            if key not in t.entries:
+                t.entries[key] = [p, UNSET]
         return p
+
+    def materialise(self, key, value):
+        """first read of the value under `key`: the same (never yet modified) value was there in every earlier snapshot"""
+        p = self.entries[key][0]
+        self.entries[key][1] = value
+        for t in self.ghost.get("_twins", ()):
+            e = t.entries.get(key)
+            if e is not None and e[1] is UNSET and (e[0] is p or (isinstance(e[0], bool) and e[0] == p)):
+                e[1] = clone(value, {})
 
     def __repr__(self):
         return f"SymDict<{self.name}>{list(self.entries)}"
@@ -430,7 +443,8 @@ def clone(v, memo):
     if isinstance(v, SymDict):
         r = SymDict(v.name, None, v.closed)
         memo[k] = r
-        r.ghost = dict(v.ghost)
+        r.ghost = {gk: gv for gk, gv in v.ghost.items() if gk != "_twins"}
+        v.ghost.setdefault("_twins", []).append(r)
         r.entries = {kk: [vv[0], clone(vv[1], memo)] for kk, vv in v.entries.items()}
         return r
     if isinstance(v, ListMap):
